@@ -11,6 +11,10 @@ const cmpPrepRaw = `var safe, same bool
 	if !safe {
 		same = true
 	}
+	if !same && reuse != nil && reuse.Dtype() != Bool {
+		// a comparison delivers Bools unless the operand type is asked for: no other reuse tensor can hold them
+		return nil, errors.Errorf(typeMismatch, Bool, reuse.Dtype())
+	}
 `
 
 const arithPrepRaw = `var safe, toReuse, incr bool
